@@ -44,6 +44,7 @@ type defProg struct {
 	Upd     bool `json:"upd"`
 	IgnoreB bool `json:"ignoreB"`
 	ZSkip   bool `json:"zskip"`
+	NoFlag  bool `json:"noflag"`
 }
 
 type structScen struct {
@@ -102,7 +103,7 @@ func cmdStruct(args []string) {
 	b := hx.NewBatch(*work)
 	b.WriteGoMod()
 	var src strings.Builder
-	src.WriteString("package p\n\nimport \"" + b.Mod + "/q\"\n\nvar _ q.TQ\n\nfunc Fn(x int) int { return x }\n\ntype DS struct {\n\tA int\n\tB int\n}\ntype DT struct {\n\tA int\n\tB int\n}\ntype FPS struct{ V int }\ntype UN struct{ X int }\ntype UNI struct {\n\tX     int\n\tExtra interface{}\n}\ntype USI struct{ N UNI }\ntype UTI struct{ N UNI }\ntype UTags map[string]int\ntype US struct {\n\tA  int\n\tN  UN\n\tP  *int\n\tL  []int\n\tM  map[string]int\n\tNM UTags\n}\ntype UT struct {\n\tA  int\n\tN  UN\n\tP  *int\n\tL  []int\n\tLS []string\n\tM  map[string]int\n\tNM UTags\n}\n\nfunc ToS(v []int) []string {\n\tif v == nil {\n\t\treturn []string{\"nil\"}\n\t}\n\treturn []string{\"7\"}\n}\n\ntype Money struct{ V int }\ntype Price struct{ V int }\ntype Cost struct{ V int }\ntype DS2 struct {\n\tA int\n\tM Money\n\tN Money\n}\ntype DT2 struct {\n\tA int\n\tM Price\n\tN Cost\n}\n\nfunc NewT2() *DT2 { return &DT2{A: 100} }\n\nfunc NewDL() []*struct{ A int } { return nil }\n\ntype DR struct {\n\tV    int\n\tKids []DR\n}\ntype DRO struct {\n\tV    int\n\tKeep int\n\tKids []DRO\n}\n\nfunc NewDRO() *DRO { return &DRO{Keep: 100} }\n\ntype DV struct{ V int }\ntype DVO struct {\n\tV    int\n\tKeep int\n}\n\nfunc NewDVO() *DVO { return &DVO{Keep: 100} }\n")
+	src.WriteString("package p\n\nimport \"" + b.Mod + "/q\"\n\nvar _ q.TQ\n\nfunc Fn(x int) int { return x }\n\ntype DS struct {\n\tA int\n\tB int\n}\ntype DT struct {\n\tA int\n\tB int\n}\ntype FPS struct{ V int }\ntype UN struct{ X int }\ntype UNI struct {\n\tX     int\n\tExtra interface{}\n}\ntype USI struct{ N UNI }\ntype UTI struct{ N UNI }\ntype UTags map[string]int\ntype US struct {\n\tA  int\n\tN  UN\n\tP  *int\n\tL  []int\n\tM  map[string]int\n\tNM UTags\n}\ntype UT struct {\n\tA  int\n\tN  UN\n\tP  *int\n\tL  []int\n\tLS []string\n\tM  map[string]int\n\tNM UTags\n}\n\nfunc ToS(v []int) []string {\n\tif v == nil {\n\t\treturn []string{\"nil\"}\n\t}\n\treturn []string{\"7\"}\n}\n\ntype Money struct{ V int }\ntype Price struct{ V int }\ntype Cost struct{ V int }\ntype DS2 struct {\n\tA int\n\tM Money\n\tN Money\n}\ntype DT2 struct {\n\tA int\n\tM Price\n\tN Cost\n}\n\nfunc NewT2() *DT2 { return &DT2{A: 100} }\n\nfunc NewDL() []*struct{ A int } { return nil }\n\nfunc NewDM() map[string]int { return map[string]int{\"origin\": 1} }\n\ntype DR struct {\n\tV    int\n\tKids []DR\n}\ntype DRO struct {\n\tV    int\n\tKeep int\n\tKids []DRO\n}\n\nfunc NewDRO() *DRO { return &DRO{Keep: 100} }\n\ntype DV struct{ V int }\ntype DVO struct {\n\tV    int\n\tKeep int\n}\n\nfunc NewDVO() *DVO { return &DVO{Keep: 100} }\n")
 	type drvCall struct {
 		Args []any `json:"args"`
 		Dump []int `json:"dump"`
@@ -301,7 +302,7 @@ func cmdStruct(args []string) {
 			if p.Upd {
 				src.WriteString("\t// goverter:default:update\n")
 			}
-			if p.SrcPtr && !p.TgtPtr {
+			if p.SrcPtr && !p.TgtPtr && !p.NoFlag {
 				src.WriteString("\t// goverter:useZeroValueOnPointerInconsistency\n")
 			}
 			if p.ZSkip {
@@ -329,6 +330,9 @@ func cmdStruct(args []string) {
 			// default:update next to a list method that makes goverter generate a helper for DV -> DVO
 			fmt.Fprintf(&src, "\n// goverter:converter\n// goverter:ignoreMissing\n%stype C%d interface {\n\tAll(source []DV) []DVO\n\t// goverter:default NewDVO\n\t// goverter:default:update\n\tConv(source *DV) *DVO\n}\n", head(i), i)
 			drvLines[i]["ins"] = []any{ptrv(stv(lit(5)))}
+		case "default-map":
+			fmt.Fprintf(&src, "\n// goverter:converter\n%stype C%d interface {\n\t// goverter:default NewDM\n\tConv(source map[string]int) map[string]int\n}\n", head(i), i)
+			drvLines[i]["ins"] = []any{nilv(), map[string]any{"k": "m", "a": "i", "kv": []any{[]any{map[string]any{"k": "b", "tok": "#k"}, lit(5)}}}}
 		case "default-list":
 			// default on a list method: the constructor is not taken by the list rule; the elements are struct -> *struct
 			fmt.Fprintf(&src, "\n// goverter:converter\n%stype C%d interface {\n\t// goverter:default NewDL\n\tConv(source []struct{ A int }) []*struct{ A int }\n}\n", head(i), i)
@@ -539,6 +543,32 @@ func cmdStruct(args []string) {
 					base["res"] = map[string]any{"nil": false, "A": litOf(f[0]), "B": litOf(f[1])}
 				}
 			}
+			obs.Write(base)
+		case "default-map":
+			base["prog"] = s.Prog
+			base["panic"] = false
+			res := map[string]any{"A": -1, "B": -1}
+			for _, r := range byID[i] {
+				nExec++
+				if r["panic"] == true {
+					base["panic"] = true
+					continue
+				}
+				j := int(r["j"].(float64))
+				if out := r["out"].(map[string]any); out["k"] == "m" {
+					for _, kv := range out["kv"].([]any) {
+						p := kv.([]any)
+						key, _ := p[0].(map[string]any)["tok"].(string)
+						if j == 0 && key == "#origin" {
+							res["A"] = litOf(p[1])
+						}
+						if j == 1 && key == "#k" {
+							res["B"] = litOf(p[1])
+						}
+					}
+				}
+			}
+			base["res"] = res
 			obs.Write(base)
 		case "default-list":
 			base["prog"] = s.Prog
